@@ -99,15 +99,22 @@ type Decision struct {
 	Accept bool
 	Reason string // "accepted" or the rule that rejected (for the key that got furthest)
 	Stage  int
-	// Silent lists the constructs in the token on which the property text takes no position
-	// (non-canonical base64 trailing bits, JSON that two parsers may read differently, fractional
-	// NumericDates, ExpectIssuedInThePast with no iat). When non-empty the decision is advisory.
-	Silent   []string
-	KeyIndex int            // index of the accepting key, -1 otherwise
-	Header   map[string]any // decoded header (when it parsed)
-	Typ      *string        // the "typ" header when present and a string
-	Payload  []byte         // decoded payload bytes (when base64 was fine)
-	Claims   map[string]any // parsed payload (when it parsed as an object)
+	// Silent lists the constructs in the token on which the property text takes no position:
+	// non-canonical base64 trailing bits, duplicate members, lone surrogates, deep nesting, numbers
+	// beyond the float64 range; and, only when every stated rule holds, a fractional NumericDate whose
+	// floor and ceiling fall on different sides of a bound, a byte order mark in front of the JSON
+	// text, a non-string typ under IgnoreTyp. When non-empty the decision is advisory.
+	Silent []string
+	// OddClaims names the payload members whose value is or contains a number that two JSON parsers
+	// may read differently (exponent form, more than 15 significant digits, beyond 2^53, -0). The
+	// decision is binding all the same; only the returned value of these claims is to be compared
+	// loosely.
+	OddClaims map[string]bool
+	KeyIndex  int            // index of the accepting key, -1 otherwise
+	Header    map[string]any // decoded header (when it parsed)
+	Typ       *string        // the "typ" header when present and a string
+	Payload   []byte         // decoded payload bytes (when base64 was fine)
+	Claims    map[string]any // parsed payload (when it parsed as an object)
 }
 
 // Strict reports whether the decision is binding (no silent construct involved).
@@ -141,18 +148,60 @@ func cmpSeconds(t int64, base time.Time, delta time.Duration) int {
 	return 0
 }
 
+// timeClaim is one of exp / nbf / iat. RFC 7519 section 2 lets a NumericDate be a non-integer
+// number; the property does not say how a fraction of a second is rounded. The reference therefore
+// keeps both whole-second ends of the value, lo = floor and hi = ceil, and evaluates every rule at
+// both: all the time rules are monotone in the timestamp, so when both ends agree every rounding
+// (and the exact fractional instant) gives that answer and the decision is binding; only a value
+// whose two ends fall on different sides of a bound is left undecided. A number in a form that two
+// JSON parsers may read differently (Flags.OddNumber) gets one more second on either side.
 type timeClaim struct {
-	present    bool
-	sec        int64
-	fractional bool
+	present bool
+	lo, hi  float64
 }
 
-// payloadRules checks the claim rules that hold for every token whatever the validator says.
-func payloadRules(m map[string]any) (exp, nbf, iat timeClaim, reason string) {
+// tri is a three-valued rule outcome.
+type tri int
+
+const (
+	no tri = iota
+	yes
+	undecided
+)
+
+// both evaluates a rule at the two ends of a time claim.
+func (tc timeClaim) both(rule func(sec float64) bool) tri {
+	a, b := rule(tc.lo), rule(tc.hi)
+	switch {
+	case a && b:
+		return yes
+	case !a && !b:
+		return no
+	}
+	return undecided
+}
+
+func inRange(sec float64) bool { return sec >= TimestampMin && sec <= TimestampMax }
+
+// seconds converts a whole number of seconds that may lie far outside the int64 range.
+func seconds(sec float64) int64 {
+	switch {
+	case sec < -2:
+		return -2
+	case sec > TimestampMax+2:
+		return TimestampMax + 2
+	}
+	return int64(sec)
+}
+
+// payloadRules checks the claim rules that hold for every token whatever the validator says. reason
+// is a rule that definitely fails; open lists rules that the two ends of a fractional time claim
+// answer differently.
+func payloadRules(m map[string]any, odd map[string]bool) (exp, nbf, iat timeClaim, reason string, open []string) {
 	for _, name := range []string{"iss", "sub", "jti"} {
 		if v, ok := m[name]; ok {
 			if _, isStr := v.(string); !isStr {
-				return exp, nbf, iat, name + "-not-a-string"
+				return exp, nbf, iat, name + "-not-a-string", nil
 			}
 		}
 	}
@@ -161,15 +210,15 @@ func payloadRules(m map[string]any) (exp, nbf, iat timeClaim, reason string) {
 		case string:
 		case []any:
 			if len(a) == 0 {
-				return exp, nbf, iat, "aud-empty-list"
+				return exp, nbf, iat, "aud-empty-list", nil
 			}
 			for _, e := range a {
 				if _, isStr := e.(string); !isStr {
-					return exp, nbf, iat, "aud-list-element-not-a-string"
+					return exp, nbf, iat, "aud-list-element-not-a-string", nil
 				}
 			}
 		default:
-			return exp, nbf, iat, "aud-not-string-or-list"
+			return exp, nbf, iat, "aud-not-string-or-list", nil
 		}
 	}
 	for i, name := range []string{"exp", "nbf", "iat"} {
@@ -179,17 +228,19 @@ func payloadRules(m map[string]any) (exp, nbf, iat timeClaim, reason string) {
 		}
 		f, isNum := v.(float64)
 		if !isNum {
-			return exp, nbf, iat, name + "-not-a-number"
+			return exp, nbf, iat, name + "-not-a-number", nil
 		}
-		tc := timeClaim{present: true}
-		if f != math.Trunc(f) {
-			tc.fractional = true
-			f = math.Trunc(f) // advisory only; the decision is flagged silent
+		tc := timeClaim{present: true, lo: math.Floor(f), hi: math.Ceil(f)}
+		if odd[name] {
+			tc.lo--
+			tc.hi++
 		}
-		if f < TimestampMin || f > TimestampMax {
-			return exp, nbf, iat, name + "-out-of-range"
+		switch tc.both(inRange) {
+		case no:
+			return exp, nbf, iat, name + "-out-of-range", nil
+		case undecided:
+			open = append(open, name+"-fraction-straddles-the-timestamp-range")
 		}
-		tc.sec = int64(f)
 		switch i {
 		case 0:
 			exp = tc
@@ -199,7 +250,7 @@ func payloadRules(m map[string]any) (exp, nbf, iat timeClaim, reason string) {
 			iat = tc
 		}
 	}
-	return exp, nbf, iat, ""
+	return exp, nbf, iat, "", open
 }
 
 // presence implements the expected / present / ignored matrix. ok: the rule holds; compare: the
@@ -218,32 +269,52 @@ func presence(ignore, present, expected bool) (ok, compare bool, reason string) 
 	return true, true, ""
 }
 
-// validate applies the validator rules. iatMissing is reported separately (see Decision.Silent).
-func validate(v Validator, typ *string, m map[string]any, exp, nbf, iat timeClaim) (reason string, iatMissing bool) {
+// validate applies the validator rules. reason is the first rule that definitely fails; when there
+// is none, open lists the time rules that the two ends of a fractional claim answer differently.
+// typPresent says that the header has a "typ" member, typ is its value when that is a string.
+func validate(v Validator, typPresent bool, typ *string, m map[string]any, exp, nbf, iat timeClaim) (reason string, open []string) {
 	if !exp.present && !v.AllowMissingExpiration {
-		return "exp-missing", false
+		return "exp-missing", nil
 	}
-	if exp.present && cmpSeconds(exp.sec, v.Now, -v.Skew) <= 0 { // needs exp > now - skew
-		return "expired", false
-	}
-	if nbf.present && cmpSeconds(nbf.sec, v.Now, v.Skew) > 0 { // needs nbf <= now + skew
-		return "not-yet-valid", false
-	}
-	if v.ExpectIssuedInThePast {
-		if !iat.present {
-			iatMissing = true
-		} else if cmpSeconds(iat.sec, v.Now, v.Skew) > 0 { // needs iat <= now + skew
-			return "issued-in-the-future", false
+	if exp.present { // needs exp > now - skew
+		switch exp.both(func(sec float64) bool { return cmpSeconds(seconds(sec), v.Now, -v.Skew) > 0 }) {
+		case no:
+			return "expired", nil
+		case undecided:
+			open = append(open, "exp-fraction-straddles-now-minus-skew")
 		}
 	}
-	if ok, cmp, r := presence(v.IgnoreTyp, typ != nil, v.ExpectedTyp != nil); !ok {
-		return "typ-" + r, iatMissing
+	if nbf.present { // needs nbf <= now + skew
+		switch nbf.both(func(sec float64) bool { return cmpSeconds(seconds(sec), v.Now, v.Skew) <= 0 }) {
+		case no:
+			return "not-yet-valid", nil
+		case undecided:
+			open = append(open, "nbf-fraction-straddles-now-plus-skew")
+		}
+	}
+	if v.ExpectIssuedInThePast {
+		// The validator's iat rule: with ExpectIssuedInThePast the token has to say when it was
+		// issued, and that instant must not lie behind now + skew.
+		if !iat.present {
+			return "iat-missing", nil
+		}
+		switch iat.both(func(sec float64) bool { return cmpSeconds(seconds(sec), v.Now, v.Skew) <= 0 }) {
+		case no:
+			return "issued-in-the-future", nil
+		case undecided:
+			open = append(open, "iat-fraction-straddles-now-plus-skew")
+		}
+	}
+	if ok, cmp, r := presence(v.IgnoreTyp, typPresent, v.ExpectedTyp != nil); !ok {
+		return "typ-" + r, nil
+	} else if cmp && typ == nil {
+		return "typ-not-a-string", nil // cannot equal the expected string
 	} else if cmp && *typ != *v.ExpectedTyp {
-		return "typ-mismatch", iatMissing
+		return "typ-mismatch", nil
 	}
 	aud, hasAud := m["aud"]
 	if ok, cmp, r := presence(v.IgnoreAud, hasAud, v.ExpectedAud != nil); !ok {
-		return "aud-" + r, iatMissing
+		return "aud-" + r, nil
 	} else if cmp {
 		found := false
 		switch a := aud.(type) {
@@ -257,19 +328,19 @@ func validate(v Validator, typ *string, m map[string]any, exp, nbf, iat timeClai
 			}
 		}
 		if !found {
-			return "aud-mismatch", iatMissing
+			return "aud-mismatch", nil
 		}
 	}
 	iss, hasIss := m["iss"]
 	if ok, cmp, r := presence(v.IgnoreIss, hasIss, v.ExpectedIss != nil); !ok {
-		return "iss-" + r, iatMissing
+		return "iss-" + r, nil
 	} else if cmp && iss.(string) != *v.ExpectedIss {
-		return "iss-mismatch", iatMissing
+		return "iss-mismatch", nil
 	}
-	return "", iatMissing
+	return "", open
 }
 
-// headerRules checks the header against one key. typ is the header's typ when present.
+// headerRules checks the header against one key. (A "typ" member is the validator's business.)
 func headerRules(h map[string]any, k Key) (reason string) {
 	alg, ok := h["alg"]
 	if !ok {
@@ -305,12 +376,25 @@ func headerRules(h map[string]any, k Key) (reason string) {
 			}
 		}
 	}
-	if typ, has := h["typ"]; has {
-		if _, isStr := typ.(string); !isStr {
-			return "typ-not-a-string"
-		}
-	}
 	return ""
+}
+
+// byteOrderMark is U+FEFF in UTF-8. RFC 8259 section 8.1: a JSON text must not start with one, but
+// a parser MAY ignore it instead of treating it as an error.
+const byteOrderMark = "\xef\xbb\xbf"
+
+// silentFlags lists the parser-dependent constructs of a JSON text that make the whole decision
+// advisory. An odd number that was read is not among them: in a registered time claim it widens
+// the claim's interval by a second, in a custom claim it only loosens the comparison of that claim's
+// returned value (Decision.OddClaims), anywhere else its value takes no part in the decision.
+func silentFlags(f Flags, prefix string) []string {
+	outOfRange := f.NumberOutOfRange
+	f.OddNumber = false
+	out := f.List(prefix)
+	if outOfRange {
+		out = append(out, prefix+"number-out-of-float64-range")
+	}
+	return out
 }
 
 // Decide is the reference decision for VerifyAndDecode / VerifyMACAndDecode.
@@ -336,11 +420,21 @@ func Decide(token string, keys []Key, v Validator) Decision {
 	d := reject(StageSignature, "signature")
 	d.Payload = dec[1]
 
+	// Constructs that matter only when every rule the property states holds: a definite rejection
+	// by another rule stays binding, an acceptance does not.
+	var cond []string
+
 	// header and payload are key independent; parse them once
 	var header map[string]any
 	headerReason := ""
-	hv, hflags, herr := ParseJSON(dec[0])
-	silent = append(silent, hflags.List("header-")...)
+	typPresent := false
+	htext := dec[0]
+	if strings.HasPrefix(string(htext), byteOrderMark) {
+		htext = htext[len(byteOrderMark):]
+		cond = append(cond, "header-byte-order-mark")
+	}
+	hv, hflags, herr := ParseJSON(htext)
+	silent = append(silent, silentFlags(hflags, "header-")...)
 	if herr != nil {
 		headerReason = "header-json: " + herr.Error()
 	} else if hm, ok := hv.(map[string]any); !ok {
@@ -348,15 +442,26 @@ func Decide(token string, keys []Key, v Validator) Decision {
 	} else {
 		header = hm
 		d.Header = hm
-		if t, ok := hm["typ"].(string); ok {
-			d.Typ = &t
+		if t, has := hm["typ"]; has {
+			typPresent = true
+			if ts, ok := t.(string); ok {
+				d.Typ = &ts
+			} else if v.IgnoreTyp {
+				// Neither the property nor the validator's rules say that an ignored typ has to be a string.
+				cond = append(cond, "typ-not-a-string-under-IgnoreTyp")
+			}
 		}
 	}
 	var claims map[string]any
 	payloadReason := ""
 	var exp, nbf, iat timeClaim
-	pv, pflags, perr := ParseJSON(dec[1])
-	silent = append(silent, pflags.List("payload-")...)
+	ptext := dec[1]
+	if strings.HasPrefix(string(ptext), byteOrderMark) {
+		ptext = ptext[len(byteOrderMark):]
+		cond = append(cond, "payload-byte-order-mark")
+	}
+	pv, pflags, podd, perr := ParseJSONMembers(ptext)
+	silent = append(silent, silentFlags(pflags, "payload-")...)
 	if perr != nil {
 		payloadReason = "payload-json: " + perr.Error()
 	} else if pm, ok := pv.(map[string]any); !ok {
@@ -364,13 +469,12 @@ func Decide(token string, keys []Key, v Validator) Decision {
 	} else {
 		claims = pm
 		d.Claims = pm
-		exp, nbf, iat, payloadReason = payloadRules(pm)
-		for _, tc := range []timeClaim{exp, nbf, iat} {
-			if tc.fractional {
-				silent = append(silent, "fractional-time-claim")
-				break
-			}
+		if len(podd) > 0 {
+			d.OddClaims = podd
 		}
+		var open []string
+		exp, nbf, iat, payloadReason, open = payloadRules(pm, podd)
+		cond = append(cond, open...)
 	}
 
 	better := func(stage int, reason string) {
@@ -378,7 +482,7 @@ func Decide(token string, keys []Key, v Validator) Decision {
 			d.Stage, d.Reason = stage, reason
 		}
 	}
-	iatSilent := false
+	var open []string
 	for i, k := range keys {
 		if !k.Enabled {
 			continue
@@ -398,23 +502,23 @@ func Decide(token string, keys []Key, v Validator) Decision {
 			better(StagePayload, payloadReason)
 			continue
 		}
-		r, iatMissing := validate(v, d.Typ, claims, exp, nbf, iat)
+		r, vopen := validate(v, typPresent, d.Typ, claims, exp, nbf, iat)
 		if r != "" {
 			better(StageValidator, r)
 			continue
 		}
-		if iatMissing {
-			// Everything the property pins down holds; what is left is "ExpectIssuedInThePast and
-			// the token has no iat", on which the property text takes no position.
-			better(StageValidator, "iat-missing")
-			iatSilent = true
+		if len(cond)+len(vopen) > 0 {
+			// Everything the property pins down holds for this key; what is left is a construct on
+			// which it takes no position.
+			better(StageValidator, "undecided")
+			open = append(append([]string{}, cond...), vopen...)
 			continue
 		}
 		d.Accept, d.Stage, d.Reason, d.KeyIndex = true, StageAccepted, "accepted", i
 		break
 	}
-	if iatSilent && !d.Accept {
-		silent = append(silent, "iat-missing-with-ExpectIssuedInThePast")
+	if !d.Accept {
+		silent = append(silent, open...)
 	}
 	sort.Strings(silent)
 	d.Silent = silent
